@@ -364,9 +364,8 @@ def inverseValue : Topo → (outer : Path) → (value : Val) → (inv : Val) →
     | .ok (some p, _) =>
       match value with
       | .dict _ =>
-        match inverse pes true (normalize (outer ++ p)) value inv with
-        | .error e => .error e
-        | .ok inv' => invDefaults pes (normalize (outer ++ p)) value inv'
+        (inverse pes true (normalize (outer ++ p)) value inv).bind
+          (invDefaults pes (normalize (outer ++ p)) value)
       | _ => .error .attributeError     -- `update[key].keys()`
     | .ok (Option.none, _) => inverse pes false outer value inv
   | .path p, outer, value, inv => invTuple outer p value inv
